@@ -193,3 +193,27 @@ Proof.
     + specialize (Hnear x Hx). lia.
     + lia.
 Qed.
+
+(* ---- every call leaves a mark on the record (the monitor spec_restart_counted of Sup/MachineCases.v looks for it):
+   whatever is pruned, the list returned by the check differs from the list it was given *)
+Lemma rot_eq (rs : list Z) : forall x now, x :: rs = rs ++ [now] -> x = now.
+Proof.
+  induction rs as [|y t IH]; intros x now H.
+  - inversion H. reflexivity.
+  - cbn [app] in H. inversion H as [[Hxy Ht]]. subst y. exact (IH x now Ht).
+Qed.
+
+Lemma check_records rs now period intensity :
+  0 <= period -> fst (check rs now period intensity) <> rs.
+Proof.
+  intros Hp. unfold check.
+  destruct (zlen (rs ++ [now]) <=? intensity) eqn:Hle; cbn [fst].
+  - intros H. apply (f_equal (@length Z)) in H. rewrite app_length in H. cbn in H. lia.
+  - destruct (prune_suffix now (period * 1000) (rs ++ [now])) as [d [Hd Hold]].
+    intros H. rewrite H in Hd.
+    assert (Hlen : length d = 1%nat).
+    { apply (f_equal (@length Z)) in Hd. rewrite !app_length in Hd. cbn in Hd. lia. }
+    destruct d as [|x [|? ?]]; try discriminate.
+    cbn [app] in Hd. symmetry in Hd. apply rot_eq in Hd. subst x.
+    specialize (Hold now (or_introl eq_refl)). lia.
+Qed.
